@@ -11,7 +11,8 @@ from autobean_refactor import models
 from autobean_refactor.models.internal import spacing_accessors as SA
 
 M = models
-UNITS = [' ', '\t', '\n', '\r\n']
+UNITS = [' ', '\t', '\n', '\r\n', '\r\r\n']      # the newline lexeme is \r*\n: a doubly converted line end is in the domain
+NU = len(UNITS) - 1
 TEMPLATES = {
     'two_dirs': '2000-01-01 open Assets:A  USD\n\n  \n\t\n2000-01-02 close Assets:A ; ic\n',
     'txn': '; lead\n2000-01-01 * "p"  "n" #t ; ic\n  kk: 1\n  Assets:A   1 USD {2 EUR} @ 3 GBP ; pic\n    mm: "x"\n  ; between\n  Assets:B\n; trail\n',
@@ -59,10 +60,10 @@ def make_spacing(tname, side, klen, facet, twin=False, lf=None):
     blo, bhi = docenv.block_bounds(lf) if lf else (0, 0)
 
     def cell(mi: int, u0: int, u1: int, u2: int, bp: int = 0, bs: int = 0) -> None:
-        assert 0 <= mi < n_models and 0 <= u0 <= 3 and 0 <= u1 <= 3 and 0 <= u2 <= 3
+        assert 0 <= mi < n_models and 0 <= u0 <= NU and 0 <= u1 <= NU and 0 <= u2 <= NU
         assert (bp == 0 and bs == 0) if lf is None else (0 <= bp < len(docenv.BLOCK_PATTERNS) and 0 <= bs <= bhi - blo)
         mi = pick(mi, 0, n_models - 1)
-        us = [pick(u, 0, 3) for u in (u0, u1, u2)[:klen]]
+        us = [pick(u, 0, NU) for u in (u0, u1, u2)[:klen]]
         if lf is not None:
             bp, bs = pick(bp, 0, len(docenv.BLOCK_PATTERNS) - 1), pick(bs, 0, bhi - blo)
         with NoTracing():
@@ -136,6 +137,82 @@ def make_spacing(tname, side, klen, facet, twin=False, lf=None):
     return 'spacing_%s_%s_%s_k%d%s%s' % (facet, tname, side, klen, ('_lf%d' % lf) if lf else '', '_twin' if twin else ''), cell
 
 
+def make_text(tname, side, n, all_models, twin=False):
+    """Value-symbolic spacing: the assigned string is n symbolic code points constrained only by the property's domain
+    (blanks, tabs and newline lexemes \\r*\\n); the module's own regex is interpreted by symre so the text stays symbolic
+    through _text_to_tokens, the token constructors and the store splice."""
+    from symx.symre import SymRegex
+    from symx.env import Acc
+    text = TEMPLATES[tname]
+    with NoTracing():
+        ms0 = spacing_models(docenv.PARSER.parse(text, M.File))
+        if all_models:
+            chosen = list(range(len(ms0)))
+        else:       # one model with a non-empty adjacent run, one with an empty one, one inside a line
+            chosen = []
+            f0 = docenv.PARSER.parse(text, M.File)
+            ms1 = spacing_models(f0)
+            snap = Snapshot(f0.token_store)
+            seen = set()
+            for k, (p_, m_) in enumerate(ms1):
+                idx = snap.index[id(m_.first_token if side == 'before' else m_.last_token)]
+                run = oracle_run(snap, idx, -1 if side == 'before' else 1)
+                kind = (bool(run), any('\n' in snap.texts[r] for r in run))
+                if kind not in seen:
+                    seen.add(kind)
+                    chosen.append(k)
+    nm = len(chosen)
+
+    def cell(mi: int, c0: int, c1: int, c2: int, c3: int, c4: int) -> None:
+        assert 0 <= mi < nm
+        assert all((c == 32) | (c == 9) | (c == 13) | (c == 10) for c in (c0, c1, c2, c3, c4)[:n])
+        assert all(bool(c != 13) | ((k + 1 < n) and bool((d == 13) | (d == 10))) for k, (c, d) in enumerate(zip((c0, c1, c2, c3, c4)[:n], (c1, c2, c3, c4, 0)[:n])))
+        assert all(c == 0 for c in (c0, c1, c2, c3, c4)[n:])
+        cs = [c0, c1, c2, c3, c4][:n]
+        mi = pick(mi, 0, nm - 1)
+        new = ''
+        for c in cs:
+            new = new + chr(c)
+        with NoTracing():
+            set_load_factor(1000)
+            f = docenv.PARSER.parse(text, M.File)
+            path, m = spacing_models(f)[chosen[mi]]
+            store = f.token_store
+            before = Snapshot(store)
+            idx = before.index[id(m.first_token if side == 'before' else m.last_token)]
+            run = oracle_run(before, idx, -1 if side == 'before' else 1)
+            old = ''.join(before.texts[i] for i in run)
+            bt = before.text()
+            a0 = sum(len(x) for x in before.texts[:run[0]]) if run else sum(len(x) for x in before.texts[:idx + (1 if side == 'after' else 0)])
+            contiguous = not run or all(not before.texts[i] for i in range(run[0], run[-1] + 1) if i not in run)
+            what = '%s %s.spacing_%s = <%d symbolic characters>' % (tname, path, side, n)
+        saved = SA._SPACING_GROUP_RE
+        SA._SPACING_GROUP_RE = SymRegex(saved) if not NATIVE else saved
+        try:
+            if side == 'before':
+                m.spacing_before = new
+                back = m.spacing_before
+            else:
+                m.spacing_after = new
+                back = m.spacing_after
+        finally:
+            SA._SPACING_GROUP_RE = saved
+        if twin:
+            raise Fail('twin reached the assertion point')
+        at = ''.join([t.raw_text for t in store])
+        acc = Acc()
+        if contiguous:
+            acc.eq(at, bt[:a0] + new + bt[a0 + len(old):], what, 'the document is not the old one with the run replaced by the assigned string')
+        acc.eq(len(at) - len(bt), n - len(old), what, 'length changed by another amount')
+        if n:
+            acc.eq(back, new, what, 'reads back differently')
+        acc.done(what, 'assigned', R(new), 'document', R(at), 'reads back', R(back))
+        with NoTracing():
+            docenv.tree_invariant(f, what='tree after ' + what)
+
+    return 'spacingtext_%s_%s_n%d%s%s' % (tname, side, n, '_all' if all_models else '', '_twin' if twin else ''), cell
+
+
 CELLS = {}
 
 
@@ -151,9 +228,9 @@ for _t in TEMPLATES:
         for _k in (0, 1, 2, 3):
             quick = _k <= 2
             _reg(make_spacing(_t, _side, _k, 'spacing'), {'C17': Q if quick else T}, 900, 'spacing',
-                 'template %s: every model/token x spacing_%s x every string of %d units from {SP,TAB,LF,CRLF}' % (_t, _side, _k), cost=4 ** _k * 10)
+                 'template %s: every model/token x spacing_%s x every string of %d units from {SP,TAB,LF,CRLF,CRCRLF}' % (_t, _side, _k), cost=5 ** _k * 10)
             _reg(make_spacing(_t, _side, _k, 'tree'), {'C05': Q if _k == 1 else T}, 900, 'spacing/tree',
-                 'template %s: tree invariant after spacing_%s = string of %d units' % (_t, _side, _k), cost=4 ** _k * 10)
+                 'template %s: tree invariant after spacing_%s = string of %d units' % (_t, _side, _k), cost=5 ** _k * 10)
 for _t in ('two_dirs', 'txn', 'trailing_blanks', 'custom'):
     for _side in ('before', 'after'):
         for _k in (0, 1):
@@ -163,14 +240,22 @@ for _t in ('two_dirs', 'txn', 'trailing_blanks', 'custom'):
                     _reg(make_spacing(_t, _side, _k, _facet, lf=_lf), {_prop: Q if (quick and (_facet == 'spacing' or _lf == 4)) else T}, 900, 'spacing/blk',
                          'template %s: every model/token x spacing_%s = string of %d units, on a store re-partitioned for load factor %d (symbolic block pattern and first block size)'
                          % (_t, _side, _k, _lf), cost=300)
+for _t in ('two_dirs', 'txn', 'no_final_newline', 'crlf'):
+    for _side in ('before', 'after'):
+        for _n in (1, 2, 3, 4, 5):
+            _reg(make_text(_t, _side, _n, False), {'C17': Q if (_n <= 3 and _t in ('two_dirs', 'txn')) else T}, 900, 'spacing/text',
+                 'template %s: spacing_%s = EVERY string of %d code points in the domain ([ \\t]|\\r*\\n)*, on three representative models (adjacent run empty / blanks / with newlines)' % (_t, _side, _n), cost=100)
+        _reg(make_text(_t, _side, 2, True), {'C17': T}, 1800, 'spacing/text', 'template %s: spacing_%s = every in-domain string of 2 code points on every model and token' % (_t, _side), cost=300)
+_reg(make_text('txn', 'before', 2, False, twin=True), {'C17': Q}, 120, 'spacing/text', 'vacuity twin', twin=True, cost=1)
 _reg(make_spacing('txn', 'before', 1, 'spacing', twin=True), {'C17': Q}, 120, 'spacing', 'vacuity twin', twin=True, cost=1)
 _reg(make_spacing('txn', 'after', 1, 'tree', twin=True), {'C05': Q}, 120, 'spacing/tree', 'vacuity twin', twin=True, cost=1)
 
 FILES = ['autobean_refactor/models/internal/spacing_accessors.py', 'autobean_refactor/models/spacing.py', 'autobean_refactor/token_store.py']
 ENCODES = ['autobean_refactor/models/internal/spacing_accessors.py: SpacingAccessorsMixin.raw_spacing_before/after, spacing_before/after (get and set), _find_spacing, _text_to_tokens']
-STUBS = ['blk cells: the parsed store is re-partitioned (docenv.reblock) into a legal block layout chosen by symbolic selectors',
+STUBS = ['text cells: spacing_accessors._SPACING_GROUP_RE is replaced by symx.symre.SymRegex interpreting the SAME pattern and flags (findall with re scanning rules; validated against re), so the assigned string stays symbolic',
+         'blk cells: the parsed store is re-partitioned (docenv.reblock) into a legal block layout chosen by symbolic selectors',
          'model ordinal, side and spacing units are symbolic selectors enumerated exhaustively by the solver; the accessor calls run natively on the concrete document of each path']
-OUTSIDE = ['templates other than the 6 listed; spacing strings longer than 3 units; lone CR (outside the property\'s domain "LF and CRLF")']
+OUTSIDE = ['templates other than the 6 listed; spacing strings longer than 3 units (selector cells) / 5 code points (text cells); lone CR (outside the property\'s domain "LF and CRLF")']
 
 
 def selftest():
